@@ -19,6 +19,8 @@ import tempfile
 
 import numpy as np
 
+from .. import snap
+
 PROPERTY = "C19"
 NUM = 19
 RULE = ("cases = a set of 2-8 miniSEED files written by the harness (sampling rates 100/200/250/500 Hz, durations chosen so "
@@ -79,7 +81,41 @@ def make_settings(rng, d):
     pre_f, proc_f = os.path.join(d, "pre.json"), os.path.join(d, "proc.json")
     pre.save(pre_f)
     proc.save(proc_f)
-    return pre_f, proc_f, kind + ("" if fft is None else f" fft_settings={fft}") + f" filter={corners}", wl
+    form = "as-saved"
+    if rng.random() < 0.45:
+        # a settings file written or trimmed by hand: entries that only repeat the class's default are left out, the keys
+        # come in another order, the layout is compact or indented, line ends may be CR LF.  It must load to an object equal
+        # to the saved one (checked here), so the expected outputs are unchanged.
+        form = "hand-written:" + ",".join(rewrite_by_hand(rng, pre_f, pre) + rewrite_by_hand(rng, proc_f, proc))
+        for path, obj in ((pre_f, pre), (proc_f, proc)):
+            back = hvsrpy.object_io.read_settings_object_from_file(path)
+            if snap.norm({a: getattr(back, a) for a in back.attrs}) != snap.norm({a: getattr(obj, a) for a in obj.attrs}):
+                raise RuntimeError(f"harness: the hand-written settings file {path} does not load to the saved object")
+    return pre_f, proc_f, kind + ("" if fft is None else f" fft_settings={fft}") + f" filter={corners} settings-files={form}", wl
+
+
+def rewrite_by_hand(rng, path, obj):
+    import json
+    with open(path) as f:
+        data = json.load(f)
+    defaults = type(obj)()
+    dropped = []
+    for key in list(data):
+        if key in ("hvsrpy_version", "processing_method", "preprocessing_method", "method_to_combine_horizontals"):
+            continue
+        if hasattr(defaults, key) and snap.norm(getattr(defaults, key)) == snap.norm(data[key]) and rng.random() < 0.6:
+            del data[key]
+            dropped.append(key)
+    keys = list(data)
+    head = [k for k in keys if k in ("hvsrpy_version",)]
+    rest = [k for k in keys if k not in head]
+    rest = [rest[i] for i in rng.permutation(len(rest))]
+    data = {k: data[k] for k in head + rest}
+    text = json.dumps(data, indent=[None, 2, 4][int(rng.integers(0, 3))])
+    eol = "\r\n" if rng.random() < 0.3 else "\n"
+    with open(path, "w", newline="") as f:
+        f.write(text.replace("\n", eol) + (eol if rng.random() < 0.5 else ""))
+    return [f"{os.path.basename(path)} without {dropped}" + (" CRLF" if eol != "\n" else "")]
 
 
 def env_for():
